@@ -57,7 +57,7 @@ var denyList = map[string]string{
 }
 
 // quotedInForm: pool entries that are put into the form as (quote x) in mode "q".
-var quotedInForm = map[string]bool{"sym": true, "fsym": true, "list12": true, "dotted": true, "nested": true, "alist": true, "lamx": true}
+var quotedInForm = map[string]bool{"sym": true, "fsym": true, "list12": true, "dotted": true, "bytespec0": true, "nested": true, "alist": true, "lamx": true}
 
 // endlessByDefinition names calls that repeat for ever by the definition of the language, which is not a
 // hang: (do bindings (end-test ...)) and do* when the end-test form is a variable that the binding list
